@@ -53,7 +53,8 @@ class SimEnv(object):
         self.sim = sim
         self.socket = net.make_socket_module()
         self.os = net.FakeOS()
-        self.Poll = net.Poll
+        import rpyc.lib.compat as compat
+        self.Poll = compat.PollingPoll       # rpyc's wrapper, running on the simulated select.poll (see main)
         self.n = 0
 
     def spawn(self, fn, *a):
@@ -436,10 +437,15 @@ def main():
                     box["r"] = "EXC %s: %s" % (type(e).__name__, e)
             sim = core.Sim(core.Choices(1), ("rtb",))
             patch.begin_run()
+            import rpyc.lib.compat as compat
+            real_select = compat.select_module
+            compat.select_module = net.make_select_module()
             try:
                 sim.run(run, sim)
             except Exception as e:
                 box["r"] = "SIM-EXC %s: %s" % (type(e).__name__, e)
+            finally:
+                compat.select_module = real_select
             patch.end_run()
             same = real == box.get("r")
             print("%-34s %-4s %s" % (name, fam, "same" if same else "DIFFERS\n    real: %r\n    sim : %r" % (real, box.get("r"))))
